@@ -4,13 +4,13 @@ package container
 // in-memory container against a naive computation on the edge list, over ALL digraphs (self loops
 // included) on VERIF_BOUND nodes. Run in-package through go test -overlay; prints one BOUNDED-RESULT line.
 //
-// Extension (functions prefixed vx, see the block comment above vxRun): for every digraph of the bound and both
-// id schemes additionally
+// Extension (functions prefixed vx, see the block comment "Extension X1-X4" below): for every digraph of the bound
+// (bound > 3: every digraph with at most as many edges as nodes) and both id schemes additionally
 //   X1 three insertion orders (all nodes first; edges first, then AddNode for the nodes no edge mentioned;
 //      AddNode/AddEdge alternating), so isolated nodes are added before, between and after AddEdge calls;
 //   X2 Normalize() of the adjacency map digraph and of the CSR digraph;
 //   X3 (bound <= 3) deletion projections for EVERY subset of real node ids x EVERY subset of real edge ids,
-//      each with and without ids the store has never seen, and the same sets split over a nested projection;
+//      each with and without ids the store has never seen, the latter also split over a nested projection;
 //   X4 the complete observation is taken a second time on the same objects (queries must not change answers),
 //      and again after appending to / overwriting every slice an AdjacentNodes-style accessor returned.
 // The oracle of every extension check is the naive computation on the node list and edge list (vNaiveAdj,
@@ -23,6 +23,7 @@ import (
 	"encoding/json"
 	"fmt"
 	"os"
+	"runtime/debug"
 	"slices"
 	"sort"
 	"strconv"
@@ -108,6 +109,7 @@ func TestVerifBoundedContainers(t *testing.T) {
 		idSchemes[0] = append(idSchemes[0], uint64(10+7*i))
 		idSchemes[1] = append(idSchemes[1], uint64((i+1)%n))
 	}
+	defer debug.SetGCPercent(debug.SetGCPercent(800)) // millions of short-lived bitmaps; the live heap stays tiny
 	graphs, comparisons := 0, 0
 	failures := []string{}
 	failuresTotal := 0
@@ -263,8 +265,11 @@ func TestVerifBoundedContainers(t *testing.T) {
 					}
 				}
 			}
-			// extension classes X1-X4 (the objects built above are not reused, except ts for X3)
-			vx.run(scheme, n, ids, edges, len(pairs), ts.(*triplestore))
+			// extension classes X1-X4 (the objects built above are not reused, except ts for X3); beyond 3 nodes only
+			// for the digraphs with at most as many edges as nodes (the extension costs ~20x the checks above)
+			if n <= 3 || len(edges) <= n {
+				vx.run(scheme, n, ids, edges, len(pairs), ts.(*triplestore))
+			}
 		}
 	} // id schemes
 	fail := func(format string, args ...any) {
@@ -315,7 +320,8 @@ func TestVerifBoundedContainers(t *testing.T) {
 // ---------------------------------------------------------------------------------------------------------
 // Extension X1-X4
 //
-// Enumerated, per digraph G of the bound (edge list `edges` over the node list `ids`) and per id scheme:
+// Enumerated, per digraph G of the bound (edge list `edges` over the node list `ids`; for a bound above 3 only the
+// digraphs with at most as many edges as nodes) and per id scheme:
 //
 //	X1  three build sequences (vxOps): "nodes-first" (AddNode for every id, then the edges), "edges-first" (the
 //	    edges, then AddNode only for the ids no edge mentioned - these are exactly the isolated nodes) and
@@ -332,15 +338,16 @@ func TestVerifBoundedContainers(t *testing.T) {
 //	    the returned mapping; the two normalised graphs, mapped back through their own mappings, must be equal.
 //	X3  (bound <= 3) on the triple store of the main loop: for every subset DN of the node ids and every subset DE
 //	    of the edge ids, once as they are and once with never-seen ids added to both sets (among them: edge ids in
-//	    the node set and node ids in the edge set): Projection(DN, DE), and the same sets split over
-//	    Projection(DN, {}).Projection(extra, DE). Oracle: nodes = ids \ DN; kept edges = edges whose id is not in
-//	    DE and whose endpoints are not in DN; NumNodes == number of EachNode deliveries == naive count, EachNode
-//	    set, NumEdges/EachEdge, and EachAdjacentNode in three directions for every id (deleted ones included) and
+//	    the node set and node ids in the edge set): Projection(DN, DE), and for the sets with never-seen ids also
+//	    split over two calls, Projection(DN, {}).Projection(never-seen node ids, DE + never-seen edge ids).
+//	    Oracle: nodes = ids \ DN; kept edges = edges whose id is not in DE and whose endpoints are not in DN;
+//	    NumNodes == number of EachNode deliveries == naive count, EachNode set, NumEdges/EachEdge, and EachAdjacentNode in three directions for every id (deleted ones included) and
 //	    a non-node == naive adjacency on the kept edges. The caller's sets must be unchanged afterwards.
 //	X4  after X1/X2 the complete observation (and Normalize) is repeated on the same objects and must be identical
 //	    to the first; then every slice returned by AdjacentNodes(), AdjacentEdges(), the package level
 //	    AdjacentNodes and Reach().Slice() gets one element appended (second round: every element overwritten) and the
-//	    complete observation must again be identical to the first.
+//	    complete observation must be identical to the one taken immediately before (after damage the containers
+//	    are rebuilt for the second round).
 
 var vxDirs = []graph.Direction{graph.DirectionOutbound, graph.DirectionInbound, graph.DirectionBoth}
 
@@ -522,11 +529,15 @@ func (s *vxState) guard(class string, ctx fmt.Stringer, f func()) {
 }
 
 func (s *vxState) boundText(n int) string {
-	x3 := "deletion projections for every subset of node ids x every subset of edge ids, with and without never-seen ids, plain and nested"
+	x3 := "deletion projections for every subset of node ids x every subset of edge ids, with and without never-seen ids (those also as a projection of a projection)"
 	if n > 3 {
 		x3 = "(extended deletion projections only up to 3 nodes)"
 	}
-	return "per digraph: 3 insertion orders (nodes first / edges first then the isolated nodes / alternating) x 4 containers completely observed incl. one non-node id, Normalize of adjacency map and CSR, everything observed twice and again after appending to / overwriting returned slices; " + x3
+	scope := "per digraph: "
+	if n > 3 {
+		scope = fmt.Sprintf("per digraph with at most %d edges: ", n)
+	}
+	return scope + "3 insertion orders (nodes first / edges first then the isolated nodes / alternating) x 4 containers completely observed incl. one non-node id, Normalize of adjacency map and CSR, everything observed twice and again after appending to / overwriting returned slices; " + x3
 }
 
 // compares one complete observation with the naive computation. name: the object, kind: the container type
@@ -804,18 +815,20 @@ func (s *vxState) runPattern(ops []vxOp, qids []uint64, nv *vxNaive, ctx fmt.Str
 		}
 	}
 	// X4a: the same questions again on the same objects
-	for _, name := range vxContainerNames {
-		again := vxObserve(cs[name], qids)
-		s.count("purity", len(again.q))
-		if i, differs := vxDiff(first[name], again); differs {
-			s.dev("purity-"+name, "%s answers differently after read-only queries: %s; %s", name, vxDiffText(first[name], again, i), ctx)
-		}
-	}
 	for _, name := range vxContainerNames[:2] {
 		again := s.normalize(cs[name], name, nv, false, ctx)
 		s.count("purity", 1)
 		if !slices.Equal(again.rev, normal[name].rev) || !slices.Equal(again.back, normal[name].back) {
 			s.dev("purity-"+name, "%s Normalize answers differently the second time: mapping %v then %v, mapped-back adjacency %v then %v; %s", name, normal[name].rev, again.rev, normal[name].back, again.back, ctx)
+		}
+	}
+	baseline := map[string]*vxObs{} // the answers immediately before the caller touches returned slices
+	for _, name := range vxContainerNames {
+		again := vxObserve(cs[name], qids)
+		baseline[name] = again
+		s.count("purity", len(again.q))
+		if i, differs := vxDiff(first[name], again); differs {
+			s.dev("purity-"+name, "%s answers differently after read-only queries: %s; %s", name, vxDiffText(first[name], again, i), ctx)
 		}
 	}
 	// X4b: the caller appends to / overwrites the slices it was handed
@@ -827,13 +840,16 @@ func (s *vxState) runPattern(ops []vxOp, qids []uint64, nv *vxNaive, ctx fmt.Str
 		for _, name := range vxContainerNames {
 			after := vxObserve(cs[name], qids)
 			s.count("slice-"+modeName, len(after.q))
-			if i, differs := vxDiff(first[name], after); differs {
+			if i, differs := vxDiff(baseline[name], after); differs {
 				damaged = true
-				s.dev("slice-"+modeName+"-"+name, "%s answers differently after the caller did %s on every slice returned by AdjacentNodes()/AdjacentEdges()/AdjacentNodes(g)/Reach().Slice() for every node and direction: %s; %s", name, map[int]string{0: "append(s, 0xDEAD0001)", 1: "s[i] = ^s[i]"}[mode], vxDiffText(first[name], after, i), ctx)
+				s.dev("slice-"+modeName+"-"+name, "%s answers differently after the caller did %s on every slice returned by AdjacentNodes()/AdjacentEdges()/AdjacentNodes(g)/Reach().Slice() for every node and direction: %s; %s", name, map[int]string{0: "append(s, 0xDEAD0001)", 1: "s[i] = ^s[i]"}[mode], vxDiffText(baseline[name], after, i), ctx)
 			}
 		}
-		if damaged {
+		if damaged && mode == 0 {
 			cs = vxBuild(ops)
+			for _, name := range vxContainerNames {
+				baseline[name] = vxObserve(cs[name], qids)
+			}
 		}
 	}
 }
@@ -913,7 +929,7 @@ func (s *vxState) runProjections(ids []uint64, edges []vEdge, numPairs int, nonN
 					allN, allE = append(allN, strangeNodes...), append(allE, strangeEdges...)
 					extraN = strangeNodes
 				}
-				for nested := 0; nested < 2; nested++ {
+				for nested := 0; nested <= variant; nested++ { // the nested form only with the never-seen ids (in the second call)
 					bmN, bmE := cardinality.NewBitmap64With(allN...), cardinality.NewBitmap64With(allE...)
 					var proj Triplestore
 					var bmN1, bmE1, bmN2 cardinality.Duplex[uint64]
